@@ -280,6 +280,8 @@ def run(ck):
     ck.coq_build(["props/C17.vo", "extract/C17_extract.vo"])
     ck.print_assumptions(["DSP.C17"], ["DSP.C17." + t for t in THEOREMS])
     ck.source_tie("strings")
+    ck.source_tie("json")
+    ck.source_tie("codeccmds")
     ck.hygiene()
     ck.ocaml_build()
     ck.harness_build(["c17"])
